@@ -84,13 +84,14 @@ deriving DecidableEq, Repr
 `now`, in a state whose configured mode is `classic`.  Each operation is required only for the arms that
 perform it: the data path (queue, drain, tear-down after a failed send, the selection write-back) for
 `client`, the drain for `flush`, the ACK / NAK handlers, REG3 and REG_ERR's tear-down for `uplink`
-(`SRTLA ACK`s by the classic rule iff `classic`), the reconnect reset and — only if `¬ classic` —
-`perform_window_recovery` for `hk`; field stamps (`Soft`) for all. -/
+(`SRTLA ACK`s by the classic rule iff `classic`), the reconnect reset, the `mark_for_recovery` fallback
+of a failed socket re-creation and — only if `¬ classic` — `perform_window_recovery` for `hk`; field
+stamps (`Soft`) for all. -/
 structure Closed (now : Nat) (arm : Arm) (classic : Bool) (P : FLink F → Prop) : Prop where
   soft : ∀ l l', Soft now l l' → P l → P l'
   queue : arm = .client → ∀ l pkt seq, SeqOk seq → P l → P (l.queueDataPacket pkt seq now).1
   take : arm = .client ∨ arm = .flush → ∀ l, P l → P (l.takeBatch now).1
-  mark : arm = .client ∨ arm = .uplink → ∀ l, P l → P l.markForRecovery
+  mark : arm = .client ∨ arm = .uplink ∨ arm = .hk → ∀ l, P l → P l.markForRecovery
   reconnect : arm = .hk → ∀ l, P l → P (l.resetForReconnect now)
   reg3 : arm = .uplink → ∀ l, P l → P (l.clearPreRegistration now)
   recover : arm = .hk → classic = false → ∀ l, P l → P (l.performWindowRecovery now)
@@ -396,7 +397,7 @@ theorem processUplinkPacket_P (hc : Closed now .uplink classic P) (l : FLink F) 
       | exact h
       | exact hst
       | exact reg3Link_P hc l h
-      | exact hc.mark (.inr rfl) l h
+      | exact hc.mark (.inr (.inl rfl)) l h
       | exact kaLink_P hc l data h
 
 /-- The closure of a core under the SRTLA-ACK / global-ACK / NAK handlers at clock `now`. -/
@@ -604,10 +605,17 @@ theorem aliveLink_P (hc : Closed now .hk classic P) (l : FLink F) (h : P l) :
   exact hc.soft _ _ (soft_recomputeBatchRegime now _)
     (hc.soft _ _ (soft_updatePhase now _) (hc.soft _ _ (soft_bitrate now l3) h3))
 
-theorem hkLink_P (hc : Closed now .hk classic P) (pending : Option Nat) (i : Nat) (l : FLink F) (h : P l) :
-    P (Hk.hkLink classic now pending i l) := by
-  have hr := reconnectLink_P hc l h
-  have hs : P (Hk.withSent (Hk.reconnectLink l now) (some now)) := hc.soft _ _ (soft_lastSent now _) hr
+theorem attemptLink_P (hc : Closed now .hk classic P) (fails : Bool) (l : FLink F) (h : P l) :
+    P (Hk.attemptLink fails l now) := by
+  unfold Hk.attemptLink
+  split
+  · exact hc.mark (.inr (.inr rfl)) _ (hc.soft _ _ (soft_recordAttempt now l) h)
+  · exact reconnectLink_P hc l h
+
+theorem hkLink_P (hc : Closed now .hk classic P) (pending : Option Nat) (fails : Bool) (i : Nat) (l : FLink F)
+    (h : P l) : P (Hk.hkLink classic now pending fails i l) := by
+  have hr := attemptLink_P hc fails l h
+  have hs : P (Hk.withSent (Hk.attemptLink fails l now) (some now)) := hc.soft _ _ (soft_lastSent now _) hr
   unfold Hk.hkLink
   split
   · split
@@ -634,8 +642,8 @@ theorem hk_all (s : Sys F) (hc : Closed now .hk s.cfg.classic P) (h : All P s.li
   -- stage 2: the per-link loop
   have h2 : All P (Hk.hkP2 s now).1 := by
     unfold Hk.hkP2
-    rw [(Hk.hkLinksGo_links _ now _ 0 _).1]
-    exact all_mapIdx h1 _ fun j l hl => hkLink_P hc _ _ l hl
+    rw [(Hk.hkLinksGo_links _ now _ 0 _ _).1]
+    exact all_mapIdx h1 _ fun j l hl => hkLink_P hc _ _ _ l hl
   -- stage 5: the driver's REG1
   have h5 : All P (Hk.hkP5 s now).1 := by
     unfold Hk.hkP5
@@ -655,7 +663,7 @@ end traverse
 
 /-! ## 8. Every event -/
 
-/-- The clock an event carries (`0` for the three clock-less configuration events, which do not touch
+/-- The clock an event carries (`0` for the clock-less configuration / injection events, which do not touch
 the links at all). -/
 def evNow : Ev → Nat
   | .client now _ => now
@@ -665,8 +673,9 @@ def evNow : Ev → Nat
   | .setCfg _ => 0
   | .crit _ => 0
   | .failNext _ => 0
+  | .failBind _ => 0
 
-/-- The arm of the event loop an event belongs to (`none`: the three configuration events, which do not
+/-- The arm of the event loop an event belongs to (`none`: the configuration / injection events, which do not
 touch the links). -/
 def evArm : Ev → Option Arm
   | .client _ _ => some .client
@@ -676,6 +685,7 @@ def evArm : Ev → Option Arm
   | .setCfg _ => none
   | .crit _ => none
   | .failNext _ => none
+  | .failBind _ => none
 
 /-- **The traversal theorem.**  For every event constructor: a predicate that survives the per-link
 operations of the event's arm at the event's clock and holds of every link before the event holds of
@@ -691,5 +701,6 @@ theorem step_all {P : FLink F → Prop} (s : Sys F) (e : Ev)
   | setCfg cfg => exact h
   | crit d => exact h
   | failNext cid => exact h
+  | failBind cid => exact h
 
 end Srtla.SysInv
